@@ -15,7 +15,7 @@ bool insideQuad(const Quad& Q, const Point64& p) {
   return pos == 4 || neg == 4;
 }
 
-std::vector<Quad> quadsOf(const Path64& pattern, const Path64& path, bool isSum, bool closed) {
+std::vector<Quad> quadsOf(const Path64& pattern, const Path64& path, bool isSum, bool closed, Paths64* outlines = nullptr) {
   std::vector<Quad> out;
   size_t np = pattern.size(), n = path.size();
   if (np == 0 || n == 0) return out;
@@ -27,11 +27,18 @@ std::vector<Quad> quadsOf(const Path64& pattern, const Path64& path, bool isSum,
       const Point64 &b0 = pattern[h], &b1 = pattern[(h + 1) % np];
       Quad Q{{comb(a0, b0), comb(a1, b0), comb(a1, b1), comb(a0, b1)}};
       Path64 qp(Q.q, Q.q + 4);
+      if (outlines) outlines->push_back(qp);   // the tolerance band follows the edges of degenerate parallelograms too
       if (O::area2(qp) == 0) continue;  // degenerate parallelogram
       out.push_back(Q);
     }
   }
   return out;
+}
+
+std::vector<O::Seg> bandSegs(const Paths64& outlines) {
+  std::vector<O::Seg> r;
+  for (auto& sg : O::segsOf(outlines)) if (!(sg.a == sg.b)) r.push_back(sg);
+  return r;
 }
 
 Verdict judge(const Case& c) {
@@ -42,22 +49,33 @@ Verdict judge(const Case& c) {
   bool closed = c.I("closed") != 0;
   int64_t m = std::max(O::maxAbs(c.P("pattern")), O::maxAbs(c.P("path")));
   if (m > (int64_t(1) << 40)) { v.discard = true; return v; }
-  // KF-C19-a: an operand smaller than ~4 units sweeps a band only 1-3 grid units wide; the parallelograms handed to the
-  // union are then slivers far from general position and the union loses the enclosed hole (cf. KF-C07-b).  Excluded.
-  auto diam = [](const Path64& p) { Rect64 r = GetBounds(p); return std::hypot((double)(r.right - r.left), (double)(r.bottom - r.top)); };
-  bool thin = pattern.size() >= 2 && path.size() >= 2 && std::min(diam(pattern), diam(path)) < 4.0;
+  // domain: each operand in general position by itself (C01's definition at separation 3 + |coord|*2^-40: no repeated
+  // point, no vertex or self-crossing within that distance of an edge it does not lie on, no retraced edge).  One-point
+  // operands have no edge and qualify; a closed two-point operand retraces its only edge and does not.
+  ld sep = 3.0L + (ld)m * ldexpl(1.0L, -40);
+  auto gpOp = [&](const Path64& p, bool closedOp) {
+    if (p.size() <= 1) return true;
+    if (closedOp && p.size() == 2) return false;
+    Paths64 pp{p};
+    if (closedOp) return O::generalPosition(O::segsOf(pp), sep);
+    std::vector<O::Seg> os = O::segsOf(pp, false, 0);
+    return O::generalPosition({}, sep, nullptr, &os);
+  };
+  bool inDomain = gpOp(pattern, true) && gpOp(path, closed);
+  if (!inDomain) ST.count("operands_not_in_general_position");
+  bool thin = false;
   for (int isSum = 1; isSum >= 0; --isSum) {
     Paths64 res = isSum ? MinkowskiSum(pattern, path, closed) : MinkowskiDiff(pattern, path, closed);
     v.evals++;
     std::string cfg = std::string(isSum ? " [MinkowskiSum" : " [MinkowskiDiff") + (closed ? ",closed]" : ",open]");
     if (pattern.empty() || path.empty()) { if (!res.empty()) { v.fail("empty pattern or path gave a non-empty result" + cfg); return v; } continue; }
-    std::vector<Quad> quads = quadsOf(pattern, path, isSum != 0, closed);
     Paths64 qp;
-    for (auto& Q : quads) qp.emplace_back(Q.q, Q.q + 4);
+    std::vector<Quad> quads = quadsOf(pattern, path, isSum != 0, closed, &qp);
     if (quads.empty()) { if (!res.empty()) { v.fail("no non-degenerate parallelogram but a non-empty result" + cfg); return v; } continue; }
-    if (thin) { v.known = "KF-C19-a"; ST.count("excluded_operand_smaller_than_4_units"); continue; }
+    if (!inDomain) { v.discard = true; continue; }
+    (void)thin;
     ld tau = 2.0L + (ld)(2 * m) * ldexpl(1.0L, -42);
-    O::Samples S = O::faceSamples(O::segsOf(qp), tau, 700);
+    O::Samples S = O::faceSamples(bandSegs(qp), tau, 700);
     int overlapping = 0;
     for (auto& p : S.pts) {
       int cnt = 0;
@@ -77,9 +95,9 @@ Verdict judge(const Case& c) {
         for (int d = 0; d < 4; ++d) {
           Path64 p2 = path;
           p2[vi].x += d == 0 ? 1 : d == 1 ? -1 : 0; p2[vi].y += d == 2 ? 1 : d == 3 ? -1 : 0;
-          std::vector<Quad> q2 = quadsOf(pattern, p2, isSum != 0, closed);
-          Paths64 qp2; for (auto& Q : q2) qp2.emplace_back(Q.q, Q.q + 4);
-          if (q2.empty() || O::distToSegs(p, O::segsOf(qp2)) <= tau) continue;
+          Paths64 qp2;
+          std::vector<Quad> q2 = quadsOf(pattern, p2, isSum != 0, closed, &qp2);
+          if (q2.empty() || O::distToSegs(p, bandSegs(qp2)) <= tau) continue;
           int c2 = 0; for (auto& Q : q2) if (insideQuad(Q, p)) ++c2;
           Paths64 r2 = isSum ? MinkowskiSum(pattern, p2, closed) : MinkowskiDiff(pattern, p2, closed);
           O::Wn w2 = O::winding(p, r2);
@@ -87,7 +105,10 @@ Verdict judge(const Case& c) {
           if (w2.w == (c2 > 0 ? 1 : 0) && !w2.on) ++cured;
         }
       bool persists = !(judged >= 4 && cured >= 2);
-      if (!persists) { v.known = "KF-ENG-a"; ST.count("mismatch_vanishing_under_vertex_perturbation"); continue; }
+      if (!persists) {
+        if (getenv("VERIF_DUMP_KNOWN")) fprintf(stderr, "KF-ENG-a: sample %s in %d parallelograms, result winding %d%s\n", O::ptStr(p).c_str(), cnt, w.w, cfg.c_str());
+        v.known = "KF-ENG-a"; ST.count("mismatch_vanishing_under_vertex_perturbation"); continue;
+      }
       v.fail("sample " + O::ptStr(p) + " lies in " + std::to_string(cnt) + " parallelograms but the result winds " + std::to_string(w.w) + " times around it" + cfg);
       return v;
     }
@@ -99,13 +120,30 @@ Verdict judge(const Case& c) {
   return v;
 }
 
+// draws random paths until one is in general position (construction first: most draws at M >= 1000 qualify at once)
+Path64 gpPath(int nmin, int nmax, int64_t M, bool closedOp) {
+  ld sep = 3.0L + (ld)M * ldexpl(1.0L, -40);
+  Path64 p;
+  for (int attempt = 0; attempt < 30; ++attempt) {
+    p = GEN::randomPath(nmin, nmax, M);
+    if (p.size() <= 1) return p;
+    if (closedOp && p.size() == 2) continue;
+    Paths64 pp{p};
+    std::vector<O::Seg> cs = O::segsOf(pp), os = O::segsOf(pp, false, 0);
+    if (closedOp ? O::generalPosition(cs, sep) : O::generalPosition({}, sep, nullptr, &os)) return p;
+  }
+  return p;
+}
+
 Case gen() {
   Case c;
   int64_t M = G::oneOf(std::vector<int64_t>{50, 1000, 100000, int64_t(1) << 30, int64_t(1) << 39});
   int64_t Mp = G::chance(50) ? std::max<int64_t>(10, M / 10) : M;
-  c.p["pattern"] = {GEN::randomPath(1, 8, Mp)};
-  c.p["path"] = {GEN::randomPath(1, 8, M)};
-  c.i["closed"] = G::range(0, 1);
+  bool closed = G::coin();
+  c.p["pattern"] = {gpPath(1, 8, Mp, true)};
+  c.p["path"] = {gpPath(1, 8, M, closed)};
+  c.i["closed"] = closed;
+  if (G::chance(4)) c.p[G::coin() ? "pattern" : "path"] = {Path64()};   // empty operand: empty result
   return c;
 }
 
